@@ -243,6 +243,16 @@ def check_defjvp(C, rep, tier, out):
                         rules = [e for e in log if e[0] == "rule"]
                         okr = all(e[3] is ans for e in rules) and [e[1] for e in rules] == [a for a in req if kinds[a] == "R"]
                         out(f"{FN}.{api}:{case}:DJ-rule-args", okr, case)
+                    if api == "defjvp":
+                        # DJ-missing: a requested position without a registered rule must raise, also next to positions that have one
+                        for req in [(m,)] + [(a, m) for a in range(m)] + [(0, m, m + 1)]:
+                            args = tuple(Opaque(("arg", i)) for i in range(m + 2))
+                            try:
+                                J(req, [Opaque(("g", a)) for a in req], Opaque(("ans",)), args, {"k": Opaque(("k",))})
+                                raised = False
+                            except Exception:
+                                raised = True
+                            out(f"{FN}.defjvp:{api}.m{m}.{''.join(kinds)}.req{''.join(map(str, req))}:DJ-missing", raised, f"request {req} with only {m} rules registered must raise")
                 finally:
                     C.primitive_jvps.pop(fun, None)
     fun = type("Prim", (), {"__name__": "prim"})()
